@@ -82,4 +82,25 @@ theorem gen_accessors_eq_model (t : T) :
     T.hasStartTime T.hasTimestamp T.hasOffset T.hasInterval member
   refine ⟨?_, ?_, ?_, ?_, ?_, ?_, ?_⟩ <;> first | rfl | (cases h : Arg.isNone _ <;> simp [h])
 
+/-- **the named constructors of the source are the model's**: each hands the general constructor its own mode, the given members
+    and nothing else (tier T9c) -/
+theorem gen_named_ctors_eq_model (ts off si st : Arg) :
+    (let g := Gen.TimingArgs.create_with_no_interval ts off; ctor g.1 g.2.1 g.2.2.1 g.2.2.2.1 g.2.2.2.2) = createNoInterval ts off
+    ∧ (let g := Gen.TimingArgs.create_with_regular_interval si ts off; ctor g.1 g.2.1 g.2.2.1 g.2.2.2.1 g.2.2.2.2) = createRegular si ts off
+    ∧ (let g := Gen.TimingArgs.create_with_irregular_interval st; ctor g.1 g.2.1 g.2.2.1 g.2.2.2.1 g.2.2.2.2) = createIrregular st :=
+  ⟨rfl, rfl, rfl⟩
+
+/-- `Timing.__eq__` compares the mode and every member, and nothing else: the model's structural equality (`eq_iff_members`) -/
+theorem gen_eq_compares_all_members :
+    Gen.TimingArgs.eq_members.length = 5 ∧
+    (∀ m, m ∈ ["_sample_interval_mode", "_timestamp", "_time_offset", "_sample_interval", "_timestamps"] ↔ m ∈ Gen.TimingArgs.eq_members) := by
+  refine ⟨by decide, ?_⟩
+  intro m
+  simp only [Gen.TimingArgs.eq_members, List.mem_cons, List.mem_nil_iff, or_false]
+  constructor <;> intro h <;> rcases h with h | h | h | h | h <;> simp [h]
+
+/-- `Timing.__reduce__` hands the constructor exactly its five parameters, in order: a pickle round trip is `ctor mode members` (C13) -/
+theorem gen_reduce_is_ctor_args :
+    Gen.TimingArgs.reduce_args = ["_sample_interval_mode", "_timestamp", "_time_offset", "_sample_interval", "_timestamps"] := rfl
+
 end Props.C20
